@@ -382,7 +382,14 @@ func (e *eng) varCase(r layRow, i int) {
 	} else {
 		args = append(args, "t")
 	}
-	res := e.run(d, nil, args...)
+	startIn := d
+	if i%3 == 2 {
+		// started in a sub-directory, the configuration found by its default name further up: Root is
+		// the configuration's directory, not the directory taskctl was started in
+		startIn = filepath.Join(d, "started", "here")
+		_ = os.MkdirAll(startIn, 0o755)
+	}
+	res := e.run(startIn, nil, args...)
 	dd, _ := filepath.EvalSymlinks(d)
 	detail := map[string]interface{}{"yaml": y.String(), "args": args, "stdout": res.Stdout, "stderr": tailS(res.Stderr, 500), "exit": res.Exit, "model": r}
 	add := func(kind, what string) {
